@@ -66,6 +66,7 @@ type rollCall struct {
 	echoOK     bool
 	retAt      time.Duration
 	dialsBefore int
+	after      int64
 }
 
 func runC29(c *Ctx) {
@@ -102,22 +103,41 @@ func runC29(c *Ctx) {
 		ids = append(ids, pool[k])
 	}
 	withRandomized := ch.Bool(30, "randomized")
-	accept := map[string]bool{}
+	// the server's policy changes over time: up to three phases, each with its own accept set,
+	// switching after a drawn number of server-side attempts (a fingerprint that worked gets
+	// blocked later, another one starts working)
+	nphase := ch.Range(1, 3, "nphases")
+	phases := make([]map[string]bool, nphase)
+	switchAt := make([]int, nphase)
 	var accNames []string
-	for _, id := range ids {
-		if ch.Bool(35, "accept") {
-			accept[id.Name] = true
-			accNames = append(accNames, id.Name)
+	for p := 0; p < nphase; p++ {
+		phases[p] = map[string]bool{}
+		for _, id := range ids {
+			if ch.Bool(35, "accept") {
+				phases[p][id.Name] = true
+				accNames = append(accNames, fmt.Sprintf("%d:%s", p, id.Name))
+			}
+		}
+		if withRandomized && ch.Bool(35, "accept-rand") {
+			phases[p]["randomized"] = true
+			accNames = append(accNames, fmt.Sprintf("%d:randomized", p))
+		}
+		if p > 0 {
+			switchAt[p] = switchAt[p-1] + ch.Range(1, 6, "phase-len")
 		}
 	}
-	if withRandomized && ch.Bool(35, "accept-rand") {
-		accept["randomized"] = true
-		accNames = append(accNames, "randomized")
+	acceptNow := func(attemptIdx int, name string) bool {
+		p := 0
+		for q := 1; q < nphase; q++ {
+			if attemptIdx >= switchAt[q] {
+				p = q
+			}
+		}
+		return phases[p][name]
 	}
 	blackhole := ""
 	if ch.Bool(25, "blackhole") {
 		blackhole = ids[ch.Pick(len(ids), "bh")].Name
-		delete(accept, blackhole)
 	}
 	dialFailAt := -1
 	if ch.Bool(20, "dialfail") {
@@ -168,6 +188,7 @@ func runC29(c *Ctx) {
 	serve := func(conn net.Conn) {
 		at := &rollAttempt{}
 		mu.Lock()
+		myIdx := len(attempts)
 		attempts = append(attempts, at)
 		at.at = Stamp()
 		mu.Unlock()
@@ -187,7 +208,7 @@ func runC29(c *Ctx) {
 				conn.Read(buf)
 				return nil, errors.New("blackhole")
 			}
-			if !accept[at.name] {
+			if !acceptNow(myIdx, at.name) {
 				return nil, errors.New("fingerprint not accepted")
 			}
 			return nil, nil
@@ -249,6 +270,7 @@ func runC29(c *Ctx) {
 					rc.workAfter = &v
 				}
 				r.HelloIDMu.Unlock()
+				rc.after = Stamp()
 				if u != nil {
 					rc.connID = u.ClientHelloID
 					msg := []byte("ping-" + rc.task)
@@ -423,8 +445,8 @@ func runC29(c *Ctx) {
 					okAfter := rc.workAfter != nil && sameID(*rc.workAfter, rc.connID)
 					if !okAfter && rc.workAfter != nil {
 						for _, oc := range allCalls {
-							if oc != rc && oc.conn != nil && sameID(*rc.workAfter, oc.connID) {
-								okAfter = true // a concurrent or later success overwrote it
+							if oc != rc && oc.conn != nil && sameID(*rc.workAfter, oc.connID) && oc.invoke < rc.after && oc.ret > rc.invoke {
+								okAfter = true // a success of an overlapping call overwrote it
 							}
 						}
 					}
